@@ -249,11 +249,16 @@ func sessionRun(cases []string, obs, oracle *common.Out) {
 			if isGo {
 				// run the search to its end before the next line is sent
 				t0 := time.Now()
-				for (uci.VerifState() == 2 || runtime.NumGoroutine() > before) && time.Since(t0) < 120*time.Second {
+				for (uci.VerifState() == 2 || runtime.NumGoroutine() > before) && time.Since(t0) < 20*time.Second {
 					time.Sleep(200 * time.Microsecond)
 				}
 				if uci.VerifState() == 2 {
-					fail("C05", "line %d (%q): the search has not ended after 120 s", li, text)
+					// every generated go line asks for a small depth or has an expired deadline: it cannot take 20 s
+					fail("C07", "line %d (%q): the search started by this line has not ended after 20 s (its limits were not applied)", li, text)
+					uci.VerifHandleLine("stop")
+					for (uci.VerifState() == 2 || runtime.NumGoroutine() > before) && time.Since(t0) < 40*time.Second {
+						time.Sleep(time.Millisecond)
+					}
 				}
 			}
 			printed := printedLines(cp.take())
